@@ -1184,6 +1184,13 @@ func vEncodingVariants(r *vRng, b *Bundle, extra []uint64) map[string][]byte {
 	out["eid-scheme3"] = vEncBundle(b, &vOver{eidRaw: map[string][]byte{"rpt": {0x82, 0x03, 0x00}}})
 	out["eid-len3"] = vEncBundle(b, &vOver{eidRaw: map[string][]byte{"rpt": {0x83, 0x01, 0x00, 0x00}}})
 	out["eid-dtn-bytes"] = vEncBundle(b, &vOver{eidRaw: map[string][]byte{"rpt": {0x82, 0x01, 0x44, '/', '/', 'a', '/'}}})
+	// the SSP of a dtn endpoint as an item of another major type (negative int, empty byte string, array, map, simple)
+	for _, it := range [][]byte{{0x20}, {0x40}, {0x80}, {0xa0}, {0xf4}, {0x38, 0x05}} {
+		out[fmt.Sprintf("eid-dtn-major-%02x", it[0])] = vEncBundle(b, &vOver{eidRaw: map[string][]byte{
+			[]string{"dst", "src", "rpt"}[r.intn(3)]: append([]byte{0x82, 0x01}, it...)}})
+	}
+	out["eid-ipn-as-uint"] = vEncBundle(b, &vOver{eidRaw: map[string][]byte{"dst": {0x82, 0x02, 0x05}}})
+	out["eid-ipn-len3"] = vEncBundle(b, &vOver{eidRaw: map[string][]byte{"dst": {0x82, 0x02, 0x83, 0x01, 0x01, 0x01}}})
 	return out
 }
 
@@ -1260,7 +1267,7 @@ func TestVerifC01(t *testing.T) {
 
 	nSer, nPar, nMut := 700, 260, 2500
 	if thorough {
-		nSer, nPar, nMut = 40000, 8000, 150000
+		nSer, nPar, nMut = 15000, 2500, 80000
 	}
 	phases := [][]uint64{nil, vExtraTypes, {ExtBlockTypeBinarySprayBlock, ExtBlockTypeSignatureBlock}}
 	start := time.Now()
